@@ -81,6 +81,37 @@ CLAIMS = {
          "edge of that read's nil test is taken (so every strict prefix is rejected, given pbcmpl's exact-size reads); a fresh message is stored "
          "first and error paths leave it untouched. Panics inside protobuf on corrupted (not truncated) bodies are not covered."),
    design="4/C07"),
+
+ "C14": dict(
+   technique="symbolic normalisation of SSA terms (byte assembly, offsets) + structural sibling agreement with Get",
+   text=("Decides the found-flag clause completely (each typed getter and Get test the same id function on the key against -1 and return the "
+         "constant flags), that the leaf ordinal comes from the function Get's value path uses, and that the returned value is, as a normalised "
+         "term, the W-byte little-endian assembly of Leaves.Bytes at W*ordinal with W = Sizeof(intW) = size of encode.I{8W} (shifts that lose "
+         "bits in a narrower type are kept visible). Does not decide that Leaves of an integer trie is dense (a data fact established by the builder)."),
+   design="4/C14"),
+ "C15": dict(
+   technique="symbolic size terms + width-preserving conversion-chain check around encoding/binary calls (resolved callees)",
+   text=("For I8..U64 a complete proof given encoding/binary: every conversion between d.(T) and LittleEndian.PutUintN / UintN and the boxed "
+         "result is between integers of equal width N=8*Sizeof(T), buffer N/8 bytes, same N both ways => Decode(Encode(v))=v and the fixed-width "
+         "little-endian layout for every value. All encoders: the four size reports are one normalised term (String16: 2+len and 2+256*b0+b1 with "
+         "the header written as len>>8, len; no bits lost in narrow shifts). TypeEncoder: Encode/Decode only through binary.Write/Read with the "
+         "receiver's Endian, constructor returns a fresh encoder with the requested order. TypeEncoder field layout is encoding/binary's."),
+   design="4/C15"),
+ "C16": dict(
+   technique="symbolic term equality between sibling accessors (Rank64 inlined) + CFG reachability for reject-before-effect",
+   text=("Decided for every array state and index: each typed Get has the same presence test and the same byte-offset polynomial as the "
+         "generic Base.GetBytes with eltsize=Sizeof(elt), decodes with LittleEndian.UintN of that width, returns (0,false) when absent; "
+         "InitIndex/Init cannot reach their sentinel-error return after a receiver store or a use of the list other than the validation, and "
+         "constructors return nil with the error; every array type is exactly Base->Array32. Rank offsets' own correctness and the protobuf "
+         "round trip are not decided."),
+   design="4/C16"),
+ "C18": dict(
+   technique="symbolic identity at construction sites + field-mapping terms + per-version definite-reassignment dataflow",
+   text=("Proves for every trie that each level record is built with leaf = total - inner (incl. the all-zero record), that Stat maps "
+         "(total,inner,leaf)->(Total,Inner,Leaf) and takes NodeCnt/KeyCnt from the last record (0 keys when empty), that rank queries at the last "
+         "bitmap position add the bit of that position, and that every receiver field Stat reads is replaced by every successful Unmarshal of every "
+         "compatible version. Does not decide KeyCnt = number of retained keys or monotonicity (runtime ranks)."),
+   design="4/C18"),
 }
 
 NA = {
